@@ -4,6 +4,7 @@ import (
 	"fmt"
 	"strconv"
 	"strings"
+	"sync"
 
 	icl "github.com/moov-io/imagecashletter"
 )
@@ -22,6 +23,10 @@ func runC07(cfg *config) *Report {
 		n = 5000
 	}
 	var lines, dumps, built []string
+	// unbuilt copies of the generated cash letters, built a second time CONCURRENTLY below: building one cash
+	// letter must not depend on another, unrelated one being built at the same time
+	var concTwins []*icl.File
+	var concWant []string
 	for i := 0; i < n; i++ {
 		mode := i % 8
 		maxItems := 4
@@ -145,8 +150,16 @@ func runC07(cfg *config) *Report {
 			}
 		}
 		before := dumpFile(f)
+		var twin *icl.File
+		if mode != 7 && len(concTwins) < 96 {
+			twin = deepCopyFile(f)
+		}
 		err = cl.Create()
 		setFRB(false)
+		if twin != nil && err == nil {
+			concTwins = append(concTwins, twin)
+			concWant = append(concWant, dumpFile(f))
+		}
 		rep.Evaluations++
 		rep.count(fmt.Sprintf("mode:%d", mode))
 		if nontrivial {
@@ -256,6 +269,48 @@ func runC07(cfg *config) *Report {
 		}
 		if i%97 == 0 {
 			rep.sample(map[string]any{"mode": mode, "census": census(before), "supplied": fmt.Sprint(supplied[cl.Bundles[0]])})
+		}
+	}
+	// the concurrent stage
+	{
+		type res struct {
+			dump string
+			err  error
+		}
+		out := make([]res, len(concTwins))
+		var wg sync.WaitGroup
+		sem := make(chan struct{}, 8)
+		for round := 0; round < 1; round++ {
+			for i := range concTwins {
+				wg.Add(1)
+				sem <- struct{}{}
+				go func(i int) {
+					defer wg.Done()
+					defer func() { <-sem }()
+					defer func() {
+						if p := recover(); p != nil {
+							out[i].err = fmt.Errorf("panic: %v", p)
+						}
+					}()
+					out[i].err = concTwins[i].CashLetters[0].Create()
+					out[i].dump = dumpFile(concTwins[i])
+				}(i)
+			}
+		}
+		wg.Wait()
+		for i := range concTwins {
+			rep.Evaluations++
+			rep.count("concurrent-build")
+			if out[i].err != nil || out[i].dump != concWant[i] {
+				what := "a cash letter built while other, unrelated cash letters are being built differs from the same cash letter built alone"
+				if out[i].err != nil {
+					what += ": " + out[i].err.Error()
+				} else {
+					what += " (first difference: " + firstDiffTok(concWant[i], out[i].dump) + ")"
+				}
+				rep.violate(Violation{Key: "C07:concurrent-build-differs", What: what, Replay: map[string]any{"built_alone": concWant[i], "built_concurrently": out[i].dump, "concurrent_builds": len(concTwins)}})
+				break
+			}
 		}
 	}
 	got, err := leanParallel(cfg.driver, lines, 16)
